@@ -337,3 +337,14 @@ def c19(ctx):
         return
     n, ops = (60, 30) if q else (800, 60)
     ctx.gv("random-deliveries", "Trace_ShardView", ["shardview", "--seed", str(seed()), "--n", str(n), "--ops", str(ops)])
+
+
+@check("C11")
+def c11(ctx):
+    ctx.assumptions += ["sweeps are triggered by the driver through the verif hook instead of the 1 s ticker; real-time bounds are not claimed",
+                        "a loop that does not answer Len within 2 s counts as wedged",
+                        "an error answer is demanded at the latest two sweeps after the cancellation"]
+    q = ctx.quick
+    ctx.design("NotifQueue", "MC_NotifQueue_quick.cfg" if q else "MC_NotifQueue_thorough.cfg")
+    beh = ctx.generate("NotifQueue", "MC_NotifQueue_gen.cfg", num=1500 if q else 30000, depth=14)
+    ctx.gv("tlc-schedules", "Trace_NotifQueue", ["queue"], inputs=beh)
